@@ -15,8 +15,8 @@ def _remap(name, tus, desc, fields, us=None):
                 tuflags=_ASSERTS, hflags=_ASSERTS, desc=desc,
                 domain='heap-allocated record; every index field and every other scalar over ALL of int, names/comments one symbolic character, '
                        'every vector of symbolic length 0..VMAX with symbolic contents; IndexRemapper::map_from cut and replaced by the bijection '
-                       'f(0)=0, f(K)=K, f(x)=x^K for a symbolic key K over all of int (an unmapped index, in particular 0, stays itself as in the '
-                       'real map_from; K=0 is the identity remapper)',
+                       'f(x) = x rotated left by K bits for a symbolic K in 1..31 (f(0)=0: the never-mapped "no entity" index stays 0 as in the '
+                       'real map_from)',
                 oracle='after remap_indices every index field (' + fields + ') equals f(old value), vector lengths are kept, every non-index '
                        'field (flags, values, names, comments, derivation/parameter flags, enum values) is unchanged, and only the remapper '
                        'that was passed in is consulted',
@@ -56,6 +56,6 @@ PROPERTY_INFO = {'C11': {'level': 'model_checking',
          'outside': 'agreement of the generated C signatures with the database (checked where the wrappers are called, C01); '
                     'InterrogateBuilder::get_type removal of invalid types (needs parser state); unique-name distinctness (C03); '
                     'databases larger than the bounds',
-         'assumptions': ['IndexRemapper::map_from is replaced by a fixed injective function in the per-record harnesses']}}
+         'assumptions': ['IndexRemapper::map_from is replaced by a family of injective functions (bit rotations) in the per-record harnesses']}}
 
 NOT_APPLICABLE = {}
